@@ -14,7 +14,18 @@ def strict_json(b):
         raise ValueError(x)
     try:
         return json.loads(b.decode("latin-1"), parse_constant=bad)
-    except (UnicodeDecodeError, ValueError, RecursionError):
+    except RecursionError:
+        # deeply nested values (the generators go to depth 2000, Go's decoder accepts 10000): retry with room to recurse
+        import sys
+        old = sys.getrecursionlimit()
+        sys.setrecursionlimit(max(old, 60000))
+        try:
+            return json.loads(b.decode("latin-1"), parse_constant=bad)
+        except (UnicodeDecodeError, ValueError, RecursionError):
+            return Ellipsis
+        finally:
+            sys.setrecursionlimit(old)
+    except (UnicodeDecodeError, ValueError):
         return Ellipsis
 
 
@@ -88,6 +99,22 @@ def main(pid, argv):
                 metas.append(dict(meta, conns=conns, probe_index=pi, probe_calls=probe_calls))
     impl = C.run_impl(bins["h_svc"], lines)
     model = C.run_model(lines)
+    # which frames of an aborted stream are calls that reach a handler (decoded by the model's call decoder, routed by the statement's rule)
+    abort_frames = sorted({fr for meta in metas if meta for mode, data in meta["conns"] if mode not in ("half", "probe") for fr in data.split(b"\x00")[:-1]})
+    decoded = dict(zip(abort_frames, V.run_model("call-decode", [V.hexs(fr) for fr in abort_frames]))) if abort_frames else {}
+
+    def handler_calls(meta, frames):
+        out = []
+        for fr in frames:
+            d = decoded.get(fr, "ERR")
+            if d == "ERR":
+                break
+            f = d.split(" ")
+            method = b"" if f[0] == "S-" else bytes.fromhex(f[0][1:])
+            rt = S.route_py(meta["registry"], method)
+            if rt[0] == "dispatch":
+                out.append("H%s.%s %s %s" % (rt[1].hex(), rt[2].hex(), f[1], "".join(f[2:5])))
+        return out
     nf = 0
     for line, meta, il, ml in zip(lines, metas, impl, model):
         iconns, isvc = C.split_result(il)
@@ -129,9 +156,13 @@ def main(pid, argv):
                     if iconns[ci] != mconns[ci]:
                         ck.tie_broken("connection bytes / dispatch log differ from the model", line[:1200] + " conn=%d" % ci, iconns[ci][:400], mconns[ci][:400])
                 else:
+                    # the client may vanish before, between or after the replies: which replies succeed (and so which branch a handler takes,
+                    # and whether it ends the connection) is not determined; what IS determined is that the handlers that ran were called,
+                    # in order and with the right arguments, for a prefix of the stream's calls
                     strip = lambda e: " ".join(e.split(" ")[:3])
-                    if [strip(e) for e in log] != [strip(e) for e in mlog][:len(log)]:
-                        bad = "connection %d (aborted): dispatched calls are not a prefix of the calls in the stream: %s vs %s" % (ci, log[:4], mlog[:4])
+                    want = handler_calls(meta, frames[:n_ok])
+                    if [strip(e) for e in log] != want[:len(log)]:
+                        bad = "connection %d (aborted): dispatched calls are not a prefix of the calls in the stream: %s vs %s" % (ci, log[:4], want[:4])
                         break
         elif meta is None:
             ck.evaluations += 1
